@@ -89,6 +89,9 @@ def check(ctx: Ctx) -> None:
             ctx.violation('C13.a', 'PathLossGeneral.' + meth, 'does not read the live parameters %s (reads %s): forward and '
                           'inverse can drift apart after a setter call' % (sorted(need), sorted(reads)), fn.path, fn.lineno,
                           operand='live')
+    from ..dsf import auto_memo_check
+    ctx.rule('C13.e', 'no auto-discovered lazily filled cache of the classes in the anchored modules can be stale at the exit of a public method (dependencies = what the fill expression reads, incl. mutating calls on held sub-objects)', floor=8)
+    auto_memo_check(ctx, 'C13.e', [PL, AG])
     _check_policy(ctx)
     _check_units(ctx)
     _check_inverse(ctx)
